@@ -213,6 +213,12 @@ class Sim:
         self.emit(self.rng.choice('HE') if narrow else self.rng.choice('GGE'))
     def burst(self, n): self.emit('M%d' % n)
 
+    def link2(self, holder, t):
+        """deterministic variant of link (field 0)"""
+        k = self.n[holder]['k']
+        if k in 'SsRr': self.store(holder, 0, t)
+        else: self.insert(holder, t, key=(t if k in 'YZ' else 7))
+
     def link(self, holder, t):
         """make holder point to t by whatever its kind offers"""
         k = self.n[holder]['k']
@@ -460,6 +466,35 @@ def gen_raw(rng, n):
     unroot(s, r)
     s.collect(narrow=True)
     return s.script()
+
+
+def gen_exhaustive2():
+    """small scope, exhaustive: every two-node graph over nine kinds, every choice of the (single) pointer of each
+    node (NULL, itself, the other), every root kind of node 1 (stack slot, TLS entry, root flag, none) and of node 2
+    (stack slot, TLS entry, none): 9*9*3*3*4*3 = 8748 scripts; exact collection, full collection, then all roots
+    dropped and an exact collection again"""
+    out = []
+    kinds = 'SRALTEYZU'
+    for k1 in kinds:
+        for k2 in kinds:
+            for p1 in (0, 1, 2):
+                for p2 in (0, 1, 2):
+                    for r1 in ('stack', 'tls', 'flag', 'none'):
+                        for r2 in ('stack', 'tls', 'none'):
+                            s = Sim(None)
+                            a = s.new(k1, root=(r1 == 'flag'))
+                            b = s.new(k2)
+                            if p1: s.link2(a, p1)
+                            if p2: s.link2(b, p2)
+                            if r1 == 'tls': s.tls_set(1, a)
+                            if r2 == 'tls': s.tls_set(2, b)
+                            if r1 != 'stack': s.drop(a)
+                            if r2 != 'stack': s.drop(b)
+                            s.emit('E'); s.emit('G')
+                            s.drop(a); s.drop(b); s.tls_rem(1); s.tls_rem(2)
+                            s.emit('E')
+                            out.append(s.script())
+    return out
 
 
 def gen_case(rng, size):
@@ -807,6 +842,13 @@ def run(ctx):
             for kinds in ('R', 'RS', 'RSALTEU'):
                 # a link through a container costs several C frames: keep those chains well below the stack limit (F1)
                 cases.append(gen_chain(ctx.rng, min(L, 5000) if len(kinds) > 2 else L, kinds))
+    if not quick:
+        ex = gen_exhaustive2()
+        bad = [c for c in ex[::97] if not valid_script(c)]
+        if bad: raise RuntimeError('exhaustive generator produced an invalid program: ' + bad[0])
+        cases += ex
+        ctx.cov['exhaustive'] = ('all %d two-node graphs over 9 kinds x pointer of each node in {NULL, self, other} x root kind of '
+                                 'node 1 in {stack, TLS, root flag, none} x root kind of node 2 in {stack, TLS, none}' % len(ex))
     tm['generate'] = round(time.time() - t0, 1)
     # self-test of the generators: a sample of the generated scripts is replayed by the independent validity checker
     small = [c for c in cases if c.count(' ') < 500][:300]
